@@ -110,6 +110,15 @@ Reply(r, rty, rbody) == EncHeader(r.fr, r.name, rty, r.seq) \o Enc(rbody)
 (* and sequence id, of type Reply, or Exception when the handler failed.         *)
 ReplyClass(ty) == IF ty = 2 THEN "none" ELSE IF ty = 3 THEN "appexc" ELSE "err"
 ClientCall(name, body) == EncEnv([fr |-> "strict", name |-> name, ty |-> 1, seq |-> 1, body |-> body])
+\* internal/multiplex: the client sends "<service>:<method>"; the handler splits at the FIRST colon and hands the rest
+\* (further colons and all) to the service registered under the part before it; anything else is an unknown method
+FirstColon(name) == IF \E i \in 1..Len(name) : name[i] = 58
+                    THEN CHOOSE i \in 1..Len(name) : name[i] = 58 /\ \A j \in 1..(i - 1) : name[j] # 58
+                    ELSE 0
+Route(name, registered) ==
+  LET i == FirstColon(name) IN
+  IF i = 0 \/ SubSeq(name, 1, i - 1) \notin registered THEN [ok |-> FALSE, svc |-> <<>>, method |-> <<>>]
+  ELSE [ok |-> TRUE, svc |-> SubSeq(name, 1, i - 1), method |-> SubSeq(name, i + 1, Len(name))]
 ServerReplyHeader(name, seq, failed) == EncHeader("strict", name, IF failed THEN 3 ELSE 2, seq)
 
 =============================================================================
